@@ -823,13 +823,16 @@ def exec (cfg : Cfg) (st : St) : Act → St × List Ob × List Act
     | some x =>
       let tdict := dictOfList (ts.map (fun t => (t.name, t)))
       let c' := tdict.foldl (fun c e => mergeTopic c e.2) st.cache
-      -- `for topic in topics` iterates the RESPONSE's topics (the local was re-bound by the decode)
-      let missing := tdict.any (fun e =>
-        (match get? e.1 c'.topicErrs with | some err => err != 0 | none => true) ||
-        (match get? e.1 c'.topicParts with | some ps => ps.isEmpty | none => true))
+      -- `for topic in topics`: the REQUESTED topics, one that the response omits is missing (9b87dea); before
+      -- that fix the decode re-bound the local, so the loop (and the retry) used the RESPONSE's topics
+      let names := if clientLtpKeepsRequestedTopics then x.topics else tdict.map (·.1)
+      let missing := names.any (fun t =>
+        (clientLtpKeepsRequestedTopics && !hasKey t tdict) ||
+        (match get? t c'.topicErrs with | some err => err != 0 | none => true) ||
+        (match get? t c'.topicParts with | some ps => ps.isEmpty | none => true))
       if missing then
         let due := st.now + cfg.retryDelay
-        ({ st with cache := c', ltps := st.ltps.map (fun y => if y.l == l then { y with topics := tdict.map (·.1), phase := .sleeping } else y),
+        ({ st with cache := c', ltps := st.ltps.map (fun y => if y.l == l then { y with topics := names, phase := .sleeping } else y),
                    timers := insertTimer { what := .retry l, due := due } st.timers },
          [.setTimer (.retry l) due], [])
       else
